@@ -111,6 +111,15 @@ def fb(x):
     return "_" if x is None else core.f2b(float(x))
 
 
+def as_fed(case_id, i, x):
+    """container / dtype in which sample i of a streaming case is handed to update(): the first sample of every third case is
+    integral and passed with an integer dtype (equivalent values in another container must not matter — here in particular to
+    the reference window that later float samples are stacked onto)"""
+    if i == 0 and case_id % 3 == 0 and np.all(x == np.round(x)):
+        return x.astype(np.int64)
+    return x
+
+
 def seed_of(ctx_seed, case, i):
     return (ctx_seed * 1000003 + case * 7919 + i * 104729 + 12345) % (2 ** 32)
 
@@ -132,7 +141,7 @@ def run_stream(spec, seed, KdqTreeStreaming, KDQTreePartitioner):
         np.random.seed(seed_of(seed, spec["id"], i))
         with Tap() as tap:
             try:
-                det.update(x)
+                det.update(as_fed(spec["id"], i, x))
                 st = core.dstr(det.drift_state)
             except Exception as e:
                 st = exc(e)
@@ -403,10 +412,12 @@ def gen_stream(rng, idx, quick, seed, KdqTreeStreaming):
             x = cands[best[1]] if best is not None else cands[0]
         else:
             x = sample("base" if rng.random() < .85 else "cluster", rng.random(m))
+        if i == 0 and idx % 3 == 0:
+            x = np.round(x)
         np.random.seed(seed_of(seed, idx, i))
         before = getattr(det, "_drift_counter", 0)
         try:
-            det.update(x.copy())
+            det.update(as_fed(idx, i, x.copy()))
         except Exception:
             rows.append(x[0]); break
         rows.append(x[0])
